@@ -59,6 +59,9 @@ pub enum COp {
     /// ActorCell::stop_children / drain_children of actor i
     StopKids(usize),
     DrainKids(usize),
+    /// stop_children_and_wait / drain_children_and_wait of actor i (no timeout)
+    StopKidsWait(usize),
+    DrainKidsWait(usize),
     Inject(usize),
     AbortLoop(usize),
     AbortSpawner(usize),
@@ -514,6 +517,29 @@ pub async fn client(sc: Arc<Scenario>, w: W, ops: Vec<COp>, run_tag: String) {
                     obs("obs.drain_kids", &sc.actors[i].name, 0, vec![]);
                 }
             }
+            COp::StopKidsWait(i) | COp::DrainKidsWait(i) => {
+                let cell = w.lock().unwrap().cells[i].clone();
+                if let Some(c) = cell {
+                    let stop = matches!(op, COp::StopKidsWait(_));
+                    // the children of the moment, by their scenario names
+                    let kid_ids: Vec<ractor::ActorId> = c.get_children().iter().map(|k| k.get_id()).collect();
+                    let names: Vec<String> = {
+                        let g = w.lock().unwrap();
+                        g.cells.iter().enumerate().filter_map(|(j, k)| k.as_ref().filter(|k| kid_ids.contains(&k.get_id())).map(|_| sc.actors[j].name.clone())).collect()
+                    };
+                    for n in &names {
+                        obs("obs.kid_intent", n, 0, vec![kvs("op", if stop { "stop" } else { "drain" })]);
+                    }
+                    if stop {
+                        c.stop_children_and_wait(Some("r".into()), None).await;
+                    } else {
+                        c.drain_children_and_wait(None).await;
+                    }
+                    for n in &names {
+                        obs("obs.kid_waited", n, 0, vec![]);
+                    }
+                }
+            }
             COp::Inject(i) => {
                 let cell = w.lock().unwrap().cells[i].clone();
                 if let Some(c) = cell {
@@ -601,7 +627,7 @@ pub async fn client(sc: Arc<Scenario>, w: W, ops: Vec<COp>, run_tag: String) {
 }
 
 const KEEP: &[&str] = &[
-    "obs.cb_enter", "obs.cb_exit", "obs.tick", "obs.yield", "obs.resume", "obs.send", "obs.kill", "obs.stop", "obs.drain", "obs.stop_kids", "obs.drain_kids",
+    "obs.cb_enter", "obs.cb_exit", "obs.tick", "obs.yield", "obs.resume", "obs.send", "obs.kill", "obs.stop", "obs.drain", "obs.stop_kids", "obs.drain_kids", "obs.kid_intent", "obs.kid_waited",
     "obs.inject", "obs.abort", "obs.monitor", "obs.unmonitor", "obs.joinpg", "obs.clash", "obs.clash_done", "obs.status", "obs.join_begin", "obs.join_ret", "obs.spawn_call", "obs.spawn_ret", "obs.start_ret",
     "port.stop", "port.sup", "port.msg", "port.drain", "sig.handled", "guard.cleanup", "guard.done", "task.dropped",
     "decode.dropped", "obs.end", "task.panicked", "tl.start",
@@ -930,6 +956,29 @@ pub fn micro_scenarios() -> Vec<Scenario> {
                 vec![COp::Spawn(0), COp::Spawn(1), COp::Spawn(2), COp::Send(1), COp::Send(2), COp::Send(1), COp::Join(1), COp::Join(2)],
                 vec![COp::Pause, COp::DrainKids(0), COp::Send(1), COp::Send(2)],
                 vec![COp::Pause, COp::Pause, COp::Stop(2)],
+            ],
+        },
+        // stop_children_and_wait / drain_children_and_wait: return only after every child of the moment has fully stopped
+        Scenario {
+            actors: vec![
+                s(vec![Op::Tick]),
+                a(Script { handle: vec![y()], pstop: y(), ..Default::default() }, false, false),
+                ActorSpec { name: "C".into(), sup: Some(0), instant: false, helper: false, script: Script { handle: vec![vec![Op::Tick]], pstop: vec![Op::Yield], ..Default::default() } },
+            ],
+            clients: vec![
+                vec![COp::Spawn(0), COp::Spawn(1), COp::Spawn(2), COp::Send(1), COp::Send(2), COp::StopKidsWait(0), COp::Status(1), COp::Status(2)],
+                vec![COp::Pause, COp::Send(1), COp::Send(2)],
+            ],
+        },
+        Scenario {
+            actors: vec![
+                s(vec![Op::Tick]),
+                a(Script { handle: vec![y()], pstop: vec![Op::Tick], ..Default::default() }, false, false),
+                ActorSpec { name: "C".into(), sup: Some(0), instant: false, helper: false, script: Script { handle: vec![vec![Op::Tick]], ..Default::default() } },
+            ],
+            clients: vec![
+                vec![COp::Spawn(0), COp::Spawn(1), COp::Spawn(2), COp::Send(1), COp::Send(2), COp::Send(1), COp::DrainKidsWait(0), COp::Status(1), COp::Status(2)],
+                vec![COp::Pause, COp::Pause, COp::Kill(2)],
             ],
         },
         // abort of the loop task before its first poll, and right after post_start
